@@ -202,7 +202,7 @@ def run(rep):
             # list = entry keyed by group
             sl, calls, stmts = B.backward_slice([recv[0]])
             entry = [x for _, x in calls if cname(x).startswith('std::collections::BTreeMap') and method(cname(x)) in ('entry', 'get_mut')]
-            kr = canon(B, op_place(entry[0]['args'][1])) if entry and op_place(entry[0]['args'][1]) else None
+            kr = through_newtype(B, canon(B, op_place(entry[0]['args'][1]))) if entry and op_place(entry[0]['args'][1]) else None
             rep.check(bool(entry) and kr is not None and kr[1].endswith('.group'), 'C11.R2.keyed-by-group', key, B.where(bb),
                       f'the list pushed to is not the ordered-map entry keyed by the variable\'s group (key root {kr})', ok_detail=f'map entry keyed by {kr}')
             # element fields from the same variable
@@ -278,7 +278,7 @@ def run(rep):
         rep.check(len(oks) == 1, 'C11.R3.single-ok', f'single-ok:{gname}', B.where(), f'{len(oks)} Ok returns', ok_detail='one Ok return')
         for b, st in oks:
             r = canon(B, op_place(st['rv']['ops'][0])) if op_place(st['rv']['ops'][0]) else None
-            is_map = r is not None and B.locals[r[0]].startswith('std::collections::BTreeMap<u32')
+            is_map = r is not None and B.locals[r[0]].startswith('std::collections::BTreeMap<') and ordered_u32_key(mir, map_key_type(B.locals[r[0]]))
             if r is not None and not is_map:
                 # the ordered map handed out as a list of records in key order: `map.into_iter().map(|(k, v)| Record { .. }).collect()` - nothing
                 # between the map and the collect re-orders, filters or truncates; the checks below then judge the map it was made from
@@ -436,7 +436,8 @@ def ordered_records_of(mir, B, local):
         return None
     mp = op_place(src[0]['args'][0])
     mroot = canon(B, mp) if mp else None
-    if mroot is None or not B.locals[mroot[0]].replace('&', '').replace('mut ', '').startswith('std::collections::BTreeMap<u32'):
+    mty_ = B.locals[mroot[0]].replace('&', '').replace('mut ', '') if mroot is not None else ''
+    if mroot is None or not (mty_.startswith('std::collections::BTreeMap<') and ordered_u32_key(mir, map_key_type(mty_))):
         return None
     cl, _ = closure_of(B, op_local(maps[0]['args'][1])) if len(maps[0]['args']) > 1 and op_local(maps[0]['args'][1]) is not None else (None, None)
     CB = mir.bodies.get(cl) if cl else None
@@ -608,3 +609,59 @@ def closure_eq_index(mir, B, calls):
                         if st['rv']['rk'] == 'binop' and st['rv']['op'] == 'Eq':
                             return True
     return False
+
+
+def ordered_u32_key(mir, ty):
+    """the key type of the group map orders like the group number: u32 itself, or a crate tuple struct over one u32 whose Ord / PartialOrd /
+    PartialEq are derived (the derive's expansion is what rustc compiled) - e.g. `struct GroupIndex(pub u32)`"""
+    ty = ty.strip()
+    if ty == 'u32':
+        return True
+    need = {'std::cmp::Ord': 'cmp', 'std::cmp::PartialOrd': 'partial_cmp', 'std::cmp::PartialEq': 'eq'}
+    for tr, m_ in need.items():
+        b = mir.bodies.get(f'<{ty} as {tr}>::{m_}')
+        if b is None or not b.j['span'].get('exp') or b.j['span'].get('mac') != tr:
+            return False
+    # a single field, of type u32: every construction of the type is an aggregate with one u32 operand
+    sites = 0
+    for B in mir.bodies.values():
+        for blk in B.blocks:
+            for st in blk['stmts']:
+                rv = st['rv']
+                if rv['rk'] == 'aggregate' and rv['agg'] in (f'adt:{ty}', f'adt:{ty}::{ty.split("::")[-1]}'):
+                    ops = rv.get('ops', [])
+                    if len(ops) != 1 or op_local(ops[0]) is None and 'const' not in ops[0]:
+                        return False
+                    if op_local(ops[0]) is not None and B.locals[op_local(ops[0])] != 'u32':
+                        return False
+                    sites += 1
+    return sites > 0
+
+
+def through_newtype(B, root):
+    """a root that is a freshly built single-field record (`GroupIndex(binding.group)`): the root of what was wrapped"""
+    for _ in range(3):
+        if root is None or root[1] not in ('', '&', '*'):
+            return root
+        ds = [d for d in B.defs().get(root[0], []) if d[1] == 'assign' and not d[2]['lhs']['p']]
+        if len(ds) != 1 or ds[0][2]['rv']['rk'] != 'aggregate' or len(ds[0][2]['rv'].get('ops', [])) != 1 or ds[0][2]['rv']['agg'].startswith(('closure:', 'tuple', 'array')):
+            return root
+        o = ds[0][2]['rv']['ops'][0]
+        if not op_place(o):
+            return root
+        root = canon(B, op_place(o))
+    return root
+
+
+def map_key_type(ty):
+    """K of `std::collections::BTreeMap<K, V>` (top-level comma)"""
+    inner = ty[ty.index('<') + 1:]
+    depth = 0
+    for i, ch in enumerate(inner):
+        if ch in '<(':
+            depth += 1
+        elif ch in '>)':
+            depth -= 1
+        elif ch == ',' and depth == 0:
+            return inner[:i].strip()
+    return inner.rstrip('>').strip()
